@@ -361,7 +361,12 @@ func (fi *fileInstr) run() (bool, error) {
 		case *ast.DeferStmt:
 			if k := fi.lockKind(x.Call); k == "unlock" {
 				id := fi.site(x, "defer-unlock")
-				st, err := fi.parseStmt(fmt.Sprintf("defer func() { %s; simrt.LockDepth(-1); simrt.Yield(%d) }()", fi.src(x.Call), id))
+				repl := fi.muCall(x.Call, id)
+				if repl == "" {
+					fi.warn(x, "deferred unlock on an expression of unknown type: left as it is")
+					return true
+				}
+				st, err := fi.parseStmt("defer " + repl)
 				if err != nil {
 					ferr = err
 					return false
@@ -375,17 +380,19 @@ func (fi *fileInstr) run() (bool, error) {
 			}
 			if call, ok := x.X.(*ast.CallExpr); ok {
 				switch fi.lockKind(call) {
-				case "lock":
-					id := fi.site(x, "lock")
-					c.InsertBefore(yieldStmt(id))
-					c.InsertAfter(depthStmt(1))
-					fi.changed = true
-					return true
-				case "unlock":
-					id := fi.site(x, "unlock")
-					// InsertAfter inserts directly after the node: insert in reverse order
-					c.InsertAfter(yieldStmt(id))
-					c.InsertAfter(depthStmt(-1))
+				case "lock", "unlock":
+					id := fi.site(x, fi.lockKind(call))
+					repl := fi.muCall(call, id)
+					if repl == "" {
+						fi.warn(x, "lock operation on an expression of unknown type: left as it is")
+						return true
+					}
+					st, err := fi.parseStmt(repl)
+					if err != nil {
+						ferr = err
+						return false
+					}
+					c.Replace(st)
 					fi.changed = true
 					return true
 				}
@@ -597,6 +604,30 @@ func (fi *fileInstr) methodFullName(call *ast.CallExpr) string {
 		}
 	}
 	return ""
+}
+
+// muCall renders the simrt call that replaces X.Lock() / X.RLock() /
+// X.Unlock() / X.RUnlock(): simrt.MuLock(site, P) etc., where P is X when X
+// is a pointer and &X otherwise (the methods have pointer receivers, so X is
+// addressable then). Returns "" when the type of X is not known.
+func (fi *fileInstr) muCall(call *ast.CallExpr, id int) string {
+	sel, ok := call.Fun.(*ast.SelectorExpr)
+	if !ok || fi.info == nil {
+		return ""
+	}
+	t := fi.info.TypeOf(sel.X)
+	if t == nil {
+		return ""
+	}
+	x := fi.src(sel.X)
+	if _, isPtr := t.Underlying().(*types.Pointer); !isPtr {
+		x = "&(" + x + ")"
+	}
+	fn := map[string]string{"Lock": "MuLock", "RLock": "MuRLock", "Unlock": "MuUnlock", "RUnlock": "MuRUnlock"}[sel.Sel.Name]
+	if fn == "" {
+		return ""
+	}
+	return fmt.Sprintf("simrt.%s(%d, %s)", fn, id, x)
 }
 
 // lockKind classifies X.Lock()/RLock() ("lock") and X.Unlock()/RUnlock()
